@@ -81,14 +81,15 @@ def insVote (x : Nat × Int) : List (Nat × Int) → List (Nat × Int)
   | [] => [x]
   | y :: ys => if x.1 ≤ y.1 then x :: y :: ys else y :: insVote x ys
 
-def dump (s : R) : String :=
+def dump (r : R) : String :=
+  let s := r.d
   let perm := match s.permLen with | none => "nil" | some n => toString n
   let bh := match s.blockHash with | none => "nil" | some h => toString h
   let votes := ",".intercalate ((s.votes.foldr insVote []).map fun p => s!"{p.1}:{p.2}")
   s!"phase {s.phase} fin {s.fin} tc {s.tcount} soft {s.soft} seed {s.seed} perm {perm} vrf {s.vrfOut} " ++
   s!"shares [{",".intercalate ((sortNat s.shares).map toString)}] nbs [{showBlks s.notarized}] pbs [{showBlks s.proposed}] " ++
   s!"blk {showOBlk s.block} bh {bh} votes [{votes}] tperm [{",".intercalate (s.perm.map toString)}] " ++
-  s!"locked {if s.mutexHeld || s.readers != 0 then 1 else 0}"
+  s!"locked {if r.mutexHeld || r.readers != 0 then 1 else 0}"
 
 /-! concurrent model line -/
 def parseCall (w : String) : Option (List Conc.Instr) :=
@@ -118,7 +119,7 @@ def concLine (ws : List String) : String :=
 
 /-- the observables printed after every operation (the harness reads them lock-free through its hook) -/
 def obs (s : R) : String :=
-  s!" ; ph {s.phase} tc {s.tcount} fin {s.fin} ns {s.shares.length} lk {if s.mutexHeld || s.readers != 0 then 1 else 0}"
+  s!" ; ph {s.d.phase} tc {s.d.tcount} fin {s.d.fin} ns {s.d.shares.length} lk {if s.mutexHeld || s.readers != 0 then 1 else 0}"
 
 def step (s : R) (ws : List String) : R × String :=
   match ws with
